@@ -1,20 +1,25 @@
 #!/bin/bash
 # Full .vo build of the hand-written development (never -vos/-vok).
-# Usage: tools/build_coq.sh [make args]
+# Usage: tools/build_coq.sh [targets...]      (no targets = everything)
+# The lock only protects regeneration of _CoqProject/Makefile; builds themselves run unlocked
+# (each engineer builds his own targets) under a timeout (COQ_BUILD_TIMEOUT, default 1500 s).
 set -e
 cd "$(dirname "$0")/../coq"
-exec 9>/verif/coq/.build.lock
-flock 9
-{
-  echo "-Q . SG"
-  echo "-arg -w -arg -notation-overridden,-deprecated-hint-without-locality,-deprecated-instance-without-locality,-ambiguous-paths,-redundant-canonical-projection"
-  find Base Model Proofs Properties Corr -name '*.v' | sort
-} > _CoqProject.new
-if ! cmp -s _CoqProject.new _CoqProject 2>/dev/null; then
-  mv _CoqProject.new _CoqProject
-  coq_makefile -f _CoqProject -o Makefile >/dev/null
-else
-  rm -f _CoqProject.new
-fi
-[ -f Makefile ] || coq_makefile -f _CoqProject -o Makefile >/dev/null
-timeout 3000 make -j16 "$@"
+(
+  flock 9
+  {
+    echo "-Q . SG"
+    echo "-arg -w -arg -notation-overridden,-deprecated-hint-without-locality,-deprecated-instance-without-locality,-ambiguous-paths,-redundant-canonical-projection"
+    find Base Model Proofs Properties Corr -name '*.v' | sort
+  } > _CoqProject.new
+  if ! cmp -s _CoqProject.new _CoqProject 2>/dev/null; then
+    mv _CoqProject.new _CoqProject
+    coq_makefile -f _CoqProject -o Makefile >/dev/null
+  else
+    rm -f _CoqProject.new
+  fi
+  [ -f Makefile ] || coq_makefile -f _CoqProject -o Makefile >/dev/null
+) 9>/verif/coq/.build.lock
+J=4
+[ $# -eq 0 ] && J=8
+exec timeout "${COQ_BUILD_TIMEOUT:-1500}" make -j$J "$@"
